@@ -350,6 +350,12 @@ def templates(tier="quick"):
     T += _mk("dyndep_file_is_a_second_output", [v], tags=["dyndep"], depth=min(d, 3), js=(1, 3), files={"dd.in": dd},
              max_fault_stmts=1, edits_during=False, touch_only=("dd.in",))
 
+    # T22d ... and with the dyndep file as an *implicit* output of that statement (build stamp | dd: ...)
+    v = Variant("v0", [Stmt("stamp", iouts=["dd"], ex=["u", "dd.in"], copy=True), Stmt("x", ex=["s"]),
+                       Stmt("out", ex=["in"], oo=["stamp", "dd"], dyndep="dd", extra_reads=["x"]), Stmt("top", ex=["out"])])
+    T += _mk("dyndep_file_is_an_implicit_output", [v], tags=["dyndep"], depth=min(d, 3), js=(1, 3), files={"dd.in": dd},
+             max_fault_stmts=1, edits_during=False, touch_only=("dd.in",))
+
     # T20b an up-to-date statement in the middle whose order-only inputs are being rebuilt (one of them fails) and a dirty
     # statement behind it: what is behind a failure does not start, however the path to it runs
     v = Variant("v0", [Stmt("a", ex=["s"]), Stmt("b", ex=["s"]), Stmt("mid", ex=["m"], oo=["a", "b"]), Stmt("top", ex=["mid", "u"])])
@@ -586,6 +592,19 @@ def templates(tier="quick"):
     mops += [ninja_op(j=1), ninja_op(j=2), ninja_op(j=2, k=0), ninja_op(targets=["c"], j=1), ninja_op(targets=["d"], j=1)]
     T.append(scenario("missing_source/fresh", "template", [v], ops=mops, init=[], depth=2, tags=["missing-source", "fresh"]))
     T.append(scenario("missing_source/built", "template", [v], ops=mops, init=[mb], depth=d, tags=["missing-source", "built"]))
+
+    # T32-v a validation that is a statement with a source of its own (it does not consume what it validates): the missing
+    # source in the validation's subtree is reported like any other, and nothing runs
+    v = Variant("v0", [Stmt("lib", ex=["in"]), Stmt("out", ex=["lib"], val=["out.checked"]), Stmt("out.checked", ex=["report.cfg"]),
+                       Stmt("deep", ex=["u"], val=["chk2"]), Stmt("chk2", ex=["chk1"]), Stmt("chk1", ex=["deep.cfg"]),
+                       Stmt("all", ex=["out", "deep"], phony=True)], defaults=["all"])
+    mops = [{"op": "rm", "path": x, "label": "rm source " + x} for x in ("report.cfg", "deep.cfg")] + \
+           [{"op": "edit", "path": x, "label": "edit " + x} for x in ("in", "u")] + \
+           [{"op": "write", "path": x, "content": x + "-back\n", "label": "restore " + x} for x in ("report.cfg", "deep.cfg")]
+    mb = len(mops)
+    mops += [ninja_op(j=1), ninja_op(j=2, k=0), ninja_op(targets=["out"], j=1), ninja_op(targets=["deep"], j=2)]
+    T.append(scenario("missing_source_of_a_validation/fresh", "template", [v], ops=mops, init=[], depth=2, tags=["missing-source", "fresh", "validation"]))
+    T.append(scenario("missing_source_of_a_validation/built", "template", [v], ops=mops, init=[mb], depth=min(d, 4), tags=["missing-source", "built", "validation"]))
 
     # T32a a declared source that the recorded dependencies of *another*, up-to-date statement name as well (a header that is
     # also somebody's explicit input): what a dependency list says about a file does not make it optional where it is declared
